@@ -237,3 +237,57 @@ func init() {
 		return fr(sArg)
 	}
 }
+
+// joinSpTerm: Join(x, " ") of a []string slice value as an uninterpreted
+// function of (backing array, offset, length), with its defining unfolding
+// supplied for `depth` leading elements (no quantifier reaches the solver):
+//   joinSp(x) = ""                          if len(x) == 0
+//   joinSp(x) = x[0]                        if len(x) == 1
+//   joinSp(x) = x[0] ++ " " ++ joinSp(x[1:]) otherwise
+func (x *Exec) joinSpTerm(s *State, sv *SliceV, depth int) *Term {
+	var arr *Term
+	if sv.Obj != nil {
+		arr = x.E.objVal(s, sv.Obj).(*ArrV).T
+	} else {
+		arr = ConstArr(SArr(SInt, SString), Str(""))
+	}
+	var mk func(off, ln *Term, d int) *Term
+	mk = func(off, ln *Term, d int) *Term {
+		t := UF("ufs_joinsp", SString, arr, off, ln)
+		s.assume(Implies(Le(ln, Int(0)), Eq(t, Str(""))))
+		s.assume(Implies(Eq(ln, Int(1)), Eq(t, Select(arr, off))))
+		if d > 0 {
+			rest := mk(Add(off, Int(1)), Sub(ln, Int(1)), d-1)
+			s.assume(Implies(Ge(ln, Int(2)), Eq(t, Concat(Select(arr, off), Str(" "), rest))))
+		}
+		return t
+	}
+	return mk(sv.Off, sv.Len, depth)
+}
+
+func init() {
+	specDefs["joinSp"] = func(env *SpecEnv, args []Val) Val {
+		sv, ok := args[0].(*SliceV)
+		if !ok {
+			env.errf("joinSp needs a []string")
+			return Str("")
+		}
+		return env.x.joinSpTerm(env.s, sv, 3)
+	}
+}
+
+func init() {
+	// regex flags: Default=1 Invert=2 Noop=3
+	specDefs["flagName"] = func(env *SpecEnv, args []Val) Val {
+		f, _ := env.scalar(args[0])
+		return Ite(Eq(f, Int(1)), Str("default"), Ite(Eq(f, Int(2)), Str("invert"), Ite(Eq(f, Int(3)), Str("noop"), Str("undefined"))))
+	}
+	specDefs["isFlagName"] = func(env *SpecEnv, args []Val) Val {
+		n, _ := env.scalar(args[0])
+		return Or(Eq(n, Str("default")), Eq(n, Str("invert")), Eq(n, Str("noop")))
+	}
+	specDefs["flagOf"] = func(env *SpecEnv, args []Val) Val {
+		n, _ := env.scalar(args[0])
+		return Ite(Eq(n, Str("default")), Int(1), Ite(Eq(n, Str("invert")), Int(2), Ite(Eq(n, Str("noop")), Int(3), Int(0))))
+	}
+}
